@@ -11,6 +11,7 @@ From D3 Require Import Base.Ops Base.Vec Base.RVec Base.RVec2 Spec.Convex Spec.P
   Proofs.DistTriangle Proofs.DistRound Proofs.DistLine Proofs.DistPlane Proofs.DistPlaneHull
   Model.Support Model.DistPrimComb Proofs.DistComb Proofs.DistCombOpt.
 Import ListNotations.
+From D3 Require Spec.Shapes Proofs.DistPlaneRound.
 Local Open Scope R_scope.
 (* [exists d c1 c2, f args = (d, c1, c2) /\ _]: name the components of the model's result *)
 Ltac ex3 := match goal with |- exists d c1 c2, ?e = _ /\ _ =>
@@ -446,3 +447,35 @@ Example C11_rectangle_to_rectangle_nonvacuous :
     optimal (rectangle_set c1 a10 a11 l10 l11) (rectangle_set c2 a20 a21 l20 l21) d.
 Proof. exact rectangle_to_rectangle_optimal_nonvacuous. Qed.
 
+
+(** plane_to_ellipsoid / plane_to_cylinder: [plane_to_points] on the two support points along -n and +n (support functions of
+    Model/Support.v, proved extreme in Proofs/SupportA.v, SupportB.v by team member shapes); sets of Spec/Prims.v *)
+Theorem C11_plane_to_ellipsoid (pp pn : V3R) (T : Pose R) (radii : V3R) d c1 c2 arm :
+  dot pn pn = 1 -> 0 < vx radii -> 0 < vy radii -> 0 < vz radii ->
+  DistPrimComb.plane_to_ellipsoid pp pn T radii = (d, c1, c2, arm) ->
+  optimal (plane_set pp pn) (ellipsoid_of T radii) d.
+Proof. exact (DistPlaneRound.plane_to_ellipsoid_optimal_prims pp pn T radii d c1 c2 arm). Qed.
+Print Assumptions C11_plane_to_ellipsoid.
+Example C11_plane_to_ellipsoid_nonvacuous :
+  let pp : V3R := V 0 0 0 in let pn : V3R := V 0 0 1 in
+  let T : Pose R := P ident (V 0 0 3) in let radii : V3R := V 2 3 1 in
+  dot pn pn = 1 /\ is_rotation (rot T) /\ 0 < vx radii /\ 0 < vy radii /\ 0 < vz radii /\
+  DistPrimComb.plane_to_ellipsoid pp pn T radii = (2, V 0 0 0, V 0 0 2, 1%nat) /\
+  feasible (plane_set pp pn) (Shapes.ellipsoid_set T radii) 2 (V 0 0 0) (V 0 0 2) /\
+  optimal (plane_set pp pn) (Shapes.ellipsoid_set T radii) 2.
+Proof. exact DistPlaneRound.plane_to_ellipsoid_nonvacuous. Qed.
+
+Theorem C11_plane_to_cylinder (pp pn : V3R) (T : Pose R) (r l : R) d c1 c2 arm :
+  dot pn pn = 1 -> 0 <= r -> 0 <= l ->
+  DistPrimComb.plane_to_cylinder pp pn T r l = (d, c1, c2, arm) ->
+  optimal (plane_set pp pn) (cylinder_of T r l) d.
+Proof. exact (DistPlaneRound.plane_to_cylinder_optimal_prims pp pn T r l d c1 c2 arm). Qed.
+Print Assumptions C11_plane_to_cylinder.
+Example C11_plane_to_cylinder_nonvacuous :
+  let pp : V3R := V 0 0 0 in let pn : V3R := V 0 0 1 in
+  let T : Pose R := P ident (V 0 0 3) in
+  dot pn pn = 1 /\ is_rotation (rot T) /\ 0 <= 1 /\ 0 <= 2 /\
+  DistPrimComb.plane_to_cylinder pp pn T 1 2 = (2, V 1 0 0, V 1 0 2, 1%nat) /\
+  feasible (plane_set pp pn) (Shapes.cylinder_set T 1 2) 2 (V 1 0 0) (V 1 0 2) /\
+  optimal (plane_set pp pn) (Shapes.cylinder_set T 1 2) 2.
+Proof. exact DistPlaneRound.plane_to_cylinder_nonvacuous. Qed.
